@@ -26,9 +26,12 @@ pub enum Class {
     Malformed,
     UnclosedBlock,
     MissingImport,
+    /// an expression that can never have a value: a macro name used as one, a number combined with a string, a result
+    /// that does not fit in 64 bits, an unknown function or a string in the `start` of a segment
+    Unevaluable,
 }
 
-pub const CLASSES: [Class; 11] = [
+pub const CLASSES: [Class; 12] = [
     Class::UndefSymbol,
     Class::UndefMacro,
     Class::UndefSegment,
@@ -40,6 +43,7 @@ pub const CLASSES: [Class; 11] = [
     Class::Malformed,
     Class::UnclosedBlock,
     Class::MissingImport,
+    Class::Unevaluable,
 ];
 
 impl Class {
@@ -219,16 +223,24 @@ pub fn inject(c: &Case) -> Option<Injected> {
         return None;
     }
     let mut msg = "";
+    let mut extra_files: Vec<(String, String)> = vec![];
+    // the diagnostic may sit on the mnemonic or on the operand
+    let mut wide = false;
     let mut stmt: Option<Stmt> = None;
     let mut locate_text: Option<String> = None;
     let mut point = usable[e.below(usable.len())].clone();
     match class {
         Class::UndefSymbol => {
             msg = "unknown identifier";
-            stmt = Some(if e.chance(1, 2) {
-                Stmt::Instr { mn: "lda".into(), form: Form::Plain, operand: Some(Expr::id(fresh)) }
-            } else {
-                Stmt::Data { size: DataSize::Byte, vals: vec![Expr::num(1), Expr::id(fresh)] }
+            stmt = Some(match e.below(6) {
+                0 | 1 => Stmt::Instr { mn: "lda".into(), form: Form::Plain, operand: Some(Expr::id(fresh)) },
+                2 | 3 => Stmt::Data { size: DataSize::Byte, vals: vec![Expr::num(1), Expr::id(fresh)] },
+                4 => Stmt::Raw(format!(".text \"zz{{{}}}\"", fresh)),
+                // (the file without the name in its path exists: an ignored name would include it)
+                _ => {
+                    extra_files.push(("zz.bin".to_string(), "AB".to_string()));
+                    Stmt::Raw(format!(".file \"zz{{{}}}.bin\"", fresh))
+                }
             });
             locate_text = Some(fresh.to_string());
         }
@@ -277,19 +289,38 @@ pub fn inject(c: &Case) -> Option<Injected> {
         }
         Class::ImmTooBig => {
             msg = "invalid instruction";
-            let v = 256 + e.below(65000) as i64;
             let mn = *e.pick(&["lda", "cmp", "ldx", "adc", "ora"]);
-            stmt = Some(Stmt::Instr { mn: mn.into(), form: Form::Imm, operand: Some(Expr::num(v)) });
+            match e.below(4) {
+                0 => {
+                    // below -128: no byte stands for it
+                    let v = -(129 + e.below(65000) as i64);
+                    stmt = Some(Stmt::Raw(format!("{} #{}", mn, v)));
+                }
+                1 => {
+                    // a difference of labels that only becomes too big when everything has its final place
+                    let n = 254 + e.below(3);
+                    let zeros = vec!["0"; n].join(",");
+                    stmt = Some(Stmt::Raw(format!("{f}a:\n{mn} #{f}b - {f}a\n.byte {z}\n{f}b:", f = fresh, mn = mn, z = zeros)));
+                    locate_text = Some(format!("{} #{}b", mn, fresh));
+                    wide = true;
+                }
+                _ => {
+                    let v = 256 + e.below(65000) as i64;
+                    stmt = Some(Stmt::Instr { mn: mn.into(), form: Form::Imm, operand: Some(Expr::num(v)) });
+                }
+            }
         }
         Class::BranchRange => {
             msg = "branch too far";
-            let n = 130 + e.below(60);
+            let back = e.chance(1, 2);
+            // half of them only just out of reach (forward: n bytes in between; backward: n + 2)
+            let n = if e.chance(1, 2) { (if back { 127 } else { 128 }) + e.below(3) } else { 130 + e.below(60) };
             let zeros = vec!["0"; n].join(",");
             let mn = *e.pick(&["bne", "beq", "bcc", "bmi"]);
-            let back = e.chance(1, 2);
             let raw = if back { format!("{f}:\n.byte {z}\n{mn} {f}", f = fresh, z = zeros, mn = mn) } else { format!("{mn} {f}\n.byte {z}\n{f}:", f = fresh, z = zeros, mn = mn) };
             stmt = Some(Stmt::Raw(raw));
             locate_text = Some(format!("{} {}", mn, fresh));
+            wide = true;
         }
         Class::MacroArity => {
             msg = "arguments, got";
@@ -313,6 +344,32 @@ pub fn inject(c: &Case) -> Option<Injected> {
         }
         Class::UnclosedBlock => {
             msg = "";
+        }
+        Class::Unevaluable => {
+            msg = "";
+            let top_macros: Vec<String> = prog.main().iter().filter_map(|s| if let Stmt::MacroDef { name, .. } = s { Some(name.clone()) } else { None }).collect();
+            let mut kind = e.below(4);
+            if kind == 0 && top_macros.is_empty() {
+                kind = 1;
+            }
+            if kind == 3 && !point.path.is_empty() {
+                kind = 2;
+            }
+            let raw = match kind {
+                0 => {
+                    let m = &top_macros[e.below(top_macros.len())];
+                    match e.below(4) {
+                        0 => format!("jsr {}", m),
+                        1 => format!("lda #<{}", m),
+                        2 => format!(".byte {}, 7", m),
+                        _ => format!(".word 1 + {}", m),
+                    }
+                }
+                1 => e.pick(&["lda #1 + \"a\"", ".byte 2 * \"x\", 7", ".word \"ab\" - 1", "ldx #\"a\" == 1"]).to_string(),
+                2 => e.pick(&["lda #1 << 64", ".byte 4611686018427387904 * 2", ".word 9223372036854775807 + 1"]).to_string(),
+                _ => format!(".define segment {{ name = \"{}\" start = {} }}", fresh, e.pick(&["nosuchfn(1)", "9223372036854775807 + 1", "\"str\"", "8192 + \"a\""])),
+            };
+            stmt = Some(Stmt::Raw(raw));
         }
         Class::MissingImport => {
             msg = "file not found";
@@ -382,6 +439,9 @@ pub fn inject(c: &Case) -> Option<Injected> {
         }
     }
     let (mut proj, rs) = prog.render();
+    for (n, t) in extra_files {
+        proj.files.insert(n, t);
+    }
     let r = &rs[fault_file.as_str()];
     let text = r.text.clone();
     let (line, col, fault_text);
@@ -439,8 +499,8 @@ pub fn inject(c: &Case) -> Option<Injected> {
                 let (l, cc) = r.line_col(off);
                 line = l;
                 col = Some(cc);
-                if class == Class::BranchRange {
-                    // mnemonic or operand of the branch
+                if wide {
+                    // mnemonic or operand
                     col_max = Some(cc + t.len());
                 }
             }
@@ -519,6 +579,10 @@ pub fn prop(c: &Case, log: &mut CaseLog) -> Verdict {
     }
     let before = sc.snapshot("target");
     let run = run_mos(&sc.dir, &["--no-color", "-e", "Short", "build"]);
+    if run.timed_out {
+        log.label("cli-timeout");
+        return Verdict::Discard("mos killed by the watchdog".into());
+    }
     let after = sc.snapshot("target");
     log.label("cli");
     if run.code == Some(0) {
@@ -551,7 +615,7 @@ pub fn strategy(cli: bool) -> impl Strategy<Value = Case> {
 }
 
 pub fn run_check(ctx: &mut Ctx) {
-    ctx.rule = "a valid generator program (scopes, macros, loops, conditionals, segments) + exactly one injected fault of one of 11 classes (undefined symbol/macro/segment, redefinition, illegal addressing form, immediate > 255, branch out of range, macro arity, malformed statement, unclosed block, missing import) at a generated position - semantic faults at live positions only, syntax faults anywhere; in a third of the cases the top-level statement holding the fault is moved to an imported file. oracle: in-process: >= 1 diagnostic and one of them at the injector's file/line(/column) with the class's message; CLI (`mos build -e Short`, listing+symbols on, target pre-populated with sentinels): exit status 1, located diagnostic on stdout, target directory byte- and mtime-identical. non-trivial = fault not on the first two lines or inside a scope/macro/loop/if".into();
+    ctx.rule = "a valid generator program (scopes, macros, loops, conditionals, segments) + exactly one injected fault of one of 12 classes (undefined symbol/macro/segment - also inside the string of .text and the path of .file; redefinition; illegal addressing form; immediate > 255, < -128 or a label difference that ends up at 256; branch out of range, half of them by one to three bytes; macro arity; malformed statement; unclosed block; missing import; an expression that can have no value: macro name, number with string, 64-bit overflow, error in a segment's start) at a generated position - semantic faults at live positions only, syntax faults anywhere; in a third of the cases the top-level statement holding the fault is moved to an imported file. oracle: in-process: >= 1 diagnostic and one of them at the injector's file/line(/column) with the class's message; CLI (`mos build -e Short`, listing+symbols on, target pre-populated with sentinels): exit status 1, located diagnostic on stdout, target directory byte- and mtime-identical. non-trivial = fault not on the first two lines or inside a scope/macro/loop/if".into();
     let n = ctx.tier.pick(30_000, 600_000);
     ctx.campaign_parallel("in-process", n, 16, || strategy(false), prop, to_json);
     if have_mos() {
